@@ -225,6 +225,26 @@ fn hook(site: fastrace::verif::Site) {
     if let Site::BeforePush { free, .. } = site {
         LAST_FREE.with(|f| f.set(free));
     }
+    // a vthread that was blocked on the registry's lock takes its turn again here
+    case.baton.reattach(id);
+    if let Site::BeforeRegister = site {
+        // The registry's mutex: held by the collector during the whole drain on the pinned tree.
+        // If it is held now the vthread gives the baton back and then really blocks on the mutex
+        // (a true waiter: it gets the lock when the drain ends, or earlier if the collector
+        // hands it over), registers, and waits for its turn at its next hook site. If the lock
+        // is free in the middle of a cycle the registration simply happens there.
+        let waited = fastrace::verif::registry_locked();
+        {
+            let mut w = case.w();
+            let t = w.tick();
+            w.h.hooks.push(HookEv { t, vt: Some(id), kind: HookKind::Register { waited } });
+            w.h.label(if waited { "first_command_waited_for_the_registry_lock" } else { "first_command_registers_queue" });
+        }
+        if waited {
+            case.baton.detach(id, Yield::BlockedOnRegistry);
+        }
+        return;
+    }
     if matches!(site, Site::BeforeDrain { .. } | Site::RecvEmpty | Site::Received { .. }) && !IS_COLLECTOR.with(|c| c.get()) {
         // a program vthread is draining the queues: a collector cycle inside a tracing call.
         // Recorded once per cycle, never a yield point (the real collector vthread may be
@@ -248,6 +268,7 @@ fn hook(site: fastrace::verif::Site) {
         Site::BeforeDrain { ring } => (HookKind::BeforeDrain { ring }, Some("drain")),
         Site::RecvEmpty => (HookKind::RecvEmpty, Some("recv_empty")),
         Site::Received { kind, ids } => (HookKind::Received { kind, ids, ring: 0 }, if case.prog.fine { Some("recv") } else { None }),
+        Site::BeforeRegister => unreachable!(),
     };
     {
         let mut w = case.w();
@@ -292,6 +313,8 @@ pub struct VtCtx {
     pub event_early: bool,
     /// spans created and kept by the poll in progress: the polled object takes them over
     pub kept_in_poll: Vec<usize>,
+    /// local spans skipped because their scope was full: (index in `guards`, scope)
+    pub skip_marks: Vec<(usize, usize)>,
 }
 
 fn payload_str(p: &Box<dyn Any + Send>) -> String {
@@ -769,6 +792,7 @@ impl VtCtx {
             close_t: None,
             sampled_any,
             count: 0,
+            skipped_open: 0,
             open: vec![],
             set: None,
             discarded: false,
@@ -850,14 +874,19 @@ impl VtCtx {
         let mut w = self.w();
         let t = w.tick();
         let vt = self.id;
+        let mut skipped_in = None;
         let rec = match Self::top_scope(&w, vt) {
             Some(sc) if !self.case.opts.disabled => {
                 let scope = &w.h.scopes[sc];
                 if scope.sampled_any && scope.count < 10240 {
                     Some(sc)
                 } else {
-                    if scope.count >= 10240 {
+                    let (full, sampled) = (scope.count >= 10240, scope.sampled_any);
+                    if full {
                         w.h.limit_hit = true;
+                        if sampled {
+                            skipped_in = Some(sc);
+                        }
                     }
                     None
                 }
@@ -914,7 +943,13 @@ impl VtCtx {
             }
             None => None,
         };
+        if let Some(sc) = skipped_in {
+            w.h.scopes[sc].skipped_open += 1;
+        }
         drop(w);
+        if let Some(sc) = skipped_in {
+            self.skip_marks.push((self.guards.len(), sc));
+        }
         self.guards.push(Guard::Local(ls, li));
         li
     }
@@ -986,6 +1021,13 @@ impl VtCtx {
             }
         }
         let g = self.guards.pop().unwrap();
+        if let Some((at, sc)) = self.skip_marks.last().copied() {
+            if at == self.guards.len() {
+                self.skip_marks.pop();
+                let mut w = self.w();
+                w.h.scopes[sc].skipped_open = w.h.scopes[sc].skipped_open.saturating_sub(1);
+            }
+        }
         let unwind = self.unwind_next_pop;
         if unwind {
             self.w().h.label("guard_dropped_by_unwinding");
@@ -1173,6 +1215,10 @@ impl VtCtx {
             w.tick();
             w.props(s, n.max(1))
         };
+        self.add_props_with(handle, props, re);
+    }
+
+    pub fn add_props_with(&mut self, handle: Option<u16>, props: Vec<(String, String)>, re: &[Mini]) {
         match handle {
             Some(hs) => {
                 let Some(idx) = Self::pick_span(&mut self.w(), hs) else { return };
@@ -1288,8 +1334,21 @@ impl VtCtx {
             return None;
         }
         if scope.count >= 10240 {
+            // Beyond the scope limit the record is omitted. If it is delivered all the same it
+            // must still sit on its own target: a "may" attachment when that target is a recorded
+            // span, nowhere when the innermost open local span was itself skipped.
+            let skipped = scope.skipped_open;
+            let target = match scope.open.last() {
+                Some(l) => ARef::Local(*l),
+                None => ARef::ScopeRoot(sc),
+            };
             w.h.limit_hit = true;
-            return None;
+            if skipped > 0 {
+                return None;
+            }
+            let next = w.h.atts.len();
+            w.h.overflow_atts.insert(next);
+            return Some((target, sc));
         }
         scope.count += 1;
         Some(match scope.open.last() {
@@ -1773,6 +1832,7 @@ impl VtCtx {
             let (_, _, _, empty_token) = Self::expected_clp(&w, vt);
             (format!("probe~{}.{}", tag, u), format!("probe-ev~{}.{}", tag, u), ver, depth, kinds, empty_token)
         };
+        let prop_key = format!("probe-k{}", &event_name["probe-ev".len()..]);
         let mut clp = None;
         let mut clp_panicked = false;
         if empty_token && self.case.opts.excl("clp_empty_token") {
@@ -1807,10 +1867,12 @@ impl VtCtx {
             None => true,
         };
         self.add_event_named(None, event_name.clone(), vec![], &[]);
+        self.add_props_with(None, vec![(prop_key.clone(), "v".to_string())], &[]);
         let mut w = self.w();
         let t = w.tick();
         let vt = self.id;
         w.h.probes.push(Probe {
+            prop_key,
             vt,
             ctx_ver,
             t,
@@ -1840,21 +1902,41 @@ impl VtCtx {
         Some(self.finish_span_creation(span, ms, vec![], false, "", t0, c0))
     }
 
+    /// `n` more local records (sibling local spans, events or properties) in the current scope,
+    /// staying well below the scope limit
+    pub fn op_many(&mut self, n: u8, kind: u8) {
+        let vt = self.id;
+        let count = {
+            let w = self.w();
+            match Self::top_scope(&w, vt) {
+                Some(sc) => w.h.scopes[sc].count,
+                None => return,
+            }
+        };
+        let target = (count + n as usize).min(10240 - 64);
+        self.fill_scope(count, target, kind, "many");
+    }
+
     pub fn op_burst(&mut self, n: u16, kind: u8) {
         // fill the current scope up to (limit - 25 + n) entries, then the generated ops continue
         let vt = self.id;
-        let (sc, count) = {
+        let count = {
             let w = self.w();
             match Self::top_scope(&w, vt) {
-                Some(sc) => (sc, w.h.scopes[sc].count),
+                Some(sc) => w.h.scopes[sc].count,
                 None => return,
             }
         };
         let target = 10240usize - 25 + n as usize;
+        self.fill_scope(count, target, kind, "burst");
+    }
+
+    fn fill_scope(&mut self, count: usize, target: usize, kind: u8, label: &'static str) {
+        let vt = self.id;
         if count >= target {
             return;
         }
-        self.w().h.label("burst");
+        self.w().h.label(label);
         let bno = {
             let mut w = self.w();
             let u = w.uniq();
@@ -1890,7 +1972,6 @@ impl VtCtx {
                 }
             }
         }
-        let _ = sc;
     }
 
     pub fn op_churn(&mut self, k: u8) {
@@ -2205,6 +2286,7 @@ impl VtCtx {
             Op::Fill { leave } => self.op_fill(*leave),
             Op::Bulk { n } => self.op_bulk(*n),
             Op::Volley { n } => self.op_volley(*n),
+            Op::Many { n, kind } => self.op_many(*n, *kind),
             Op::Burst { n, kind } => self.op_burst(*n, *kind),
             Op::Nest { n, span } => self.op_nest(*n, *span),
             Op::Churn { k } => self.op_churn(*k),
@@ -2232,6 +2314,8 @@ impl Case {
 enum VtState {
     Runnable,
     WaitFlush,
+    /// blocked on the receiver registry's lock until the cycle in progress ends
+    WaitRegistry,
     Exited,
 }
 
@@ -2348,6 +2432,37 @@ fn run_case_inner(prog: &Program, opts: &ExecOpts) -> Hist {
     }
     *CURRENT.lock().unwrap() = Some(case.clone());
 
+    // the pool: plain OS threads outside the baton that each make one tracing call (their command
+    // queue gets registered) and then sleep until the case is over. Their records are named
+    // "fill-pool" and ignored by the oracles.
+    let pool_release = Arc::new(std::sync::atomic::AtomicBool::new(false));
+    let mut pool_handles = vec![];
+    if opts.mode == Mode::Api && prog.pool > 0 && !opts.disabled {
+        case.w().h.label("pool_of_registered_threads");
+        let ready = Arc::new(std::sync::atomic::AtomicUsize::new(0));
+        for k in 0..prog.pool {
+            let rel = pool_release.clone();
+            let rdy = ready.clone();
+            let tid = (0xF1u128 << 120) | ((case_no as u128) << 16) | k as u128;
+            pool_handles.push(
+                std::thread::Builder::new()
+                    .name(format!("vt-pool{}", k))
+                    .stack_size(64 * 1024)
+                    .spawn(move || {
+                        drop(Span::root("fill-pool", SpanContext::new(TraceId(tid), SpanId(0))));
+                        rdy.fetch_add(1, Ordering::SeqCst);
+                        while !rel.load(Ordering::SeqCst) {
+                            std::thread::park_timeout(std::time::Duration::from_millis(50));
+                        }
+                    })
+                    .expect("spawn pool"),
+            );
+        }
+        while ready.load(Ordering::SeqCst) < prog.pool as usize {
+            std::thread::yield_now();
+        }
+    }
+
     // vthreads are spawned lazily, when first scheduled: a vthread that is born after another one
     // exited really is a new OS thread started after the old one ended (stack and thread-local
     // storage may be reused by the OS, as in programs with short-lived worker threads)
@@ -2375,8 +2490,9 @@ fn run_case_inner(prog: &Program, opts: &ExecOpts) -> Hist {
     loop {
         let waiters = state.iter().filter(|s| **s == VtState::WaitFlush).count();
         let mut en: Vec<usize> = Vec::new();
+        let lazy = sched_mode && prog.lazy_reg;
         for i in 0..n {
-            if state[i] == VtState::Runnable && (born[i] || !in_cycle) {
+            if state[i] == VtState::Runnable && (born[i] || !in_cycle || lazy) {
                 en.push(i);
             }
         }
@@ -2411,7 +2527,7 @@ fn run_case_inner(prog: &Program, opts: &ExecOpts) -> Hist {
         while steps < len {
             steps += 1;
             if !born[vt] {
-                if in_cycle {
+                if in_cycle && !(lazy && vt < n) {
                     break;
                 }
                 born[vt] = true;
@@ -2434,6 +2550,14 @@ fn run_case_inner(prog: &Program, opts: &ExecOpts) -> Hist {
                 Yield::OpDone => {
                     if vt == collector {
                         in_cycle = false;
+                        // the drain is over and the registry unlocked: the vthreads that were
+                        // blocked on it register now and stop at their next yield point
+                        case.baton.wait_detached_parked();
+                        for st in state.iter_mut() {
+                            if *st == VtState::WaitRegistry {
+                                *st = VtState::Runnable;
+                            }
+                        }
                         cycles_left = cycles_left.saturating_sub(1);
                         // wake flush waiters whose request precedes the start of this cycle
                         let w = case.w();
@@ -2464,6 +2588,11 @@ fn run_case_inner(prog: &Program, opts: &ExecOpts) -> Hist {
                     state[vt] = VtState::WaitFlush;
                     break;
                 }
+                Yield::BlockedOnRegistry => {
+                    assert!(in_cycle, "harness: the registry was locked outside of a collector cycle");
+                    state[vt] = VtState::WaitRegistry;
+                    break;
+                }
                 Yield::Exiting => {
                     let t0 = case.w().tick();
                     handles[vt].take().unwrap().join().expect("vthread panicked");
@@ -2489,6 +2618,11 @@ fn run_case_inner(prog: &Program, opts: &ExecOpts) -> Hist {
         let y = case.baton.run(collector);
         assert_eq!(y, Yield::Exiting, "collector did not stop");
         handles[collector].take().unwrap().join().expect("collector panicked");
+    }
+    pool_release.store(true, Ordering::SeqCst);
+    for h in pool_handles {
+        h.thread().unpark();
+        let _ = h.join();
     }
     // final cycles on the scheduler thread
     for k in 0..2 {
@@ -2568,7 +2702,7 @@ fn vt_main(case: Arc<Case>, id: usize, n: usize) {
             w.h.vts[id].born_t = Some(t);
         }
         #[cfg(fastrace_verif)]
-        if case.opts.mode == Mode::Sched {
+        if case.opts.mode == Mode::Sched && !case.prog.lazy_reg {
             fastrace::verif::touch_sender();
         }
         let mut cx = VtCtx {
@@ -2581,6 +2715,7 @@ fn vt_main(case: Arc<Case>, id: usize, n: usize) {
             unwind_next_pop: false,
             event_early: false,
             kept_in_poll: vec![],
+            skip_marks: vec![],
         };
         if id == reaper {
             reaper_main(&mut cx);
